@@ -220,6 +220,53 @@ PROPS.update({
         design_ref="DESIGN.md §6 C19"),
 })
 
+CONC_RULE = ("engine conc — real OS threads on one SharedObservable, each executing one call (subscriber poll incl. re-poll, set, get, drop of a clone, upgrade of a weak reference), "
+             "driven by a director through the instrumented pause points (eyeball::verif): for 11 programs of 2-3 threads every interleaving of the pause-point segments is enumerated on a "
+             "ledger (11..5230 schedules per program; all of them when <= 250 (thorough 4000), otherwise an evenly spread sample selected by the seed), including releases of a thread into a "
+             "lock that another thread holds (it must block) and its later arrival; the recorded trace (arrived at which point / blocked / result) is replayed on the Lean lock-level model. "
+             "Plus 300 (thorough 3000) free-running rounds without pause points. Oracles at quiescence: a task whose last poll was Pending and whose waker was not woken is polled once more "
+             "(lost wakeup), stream ended iff no owner, set chain, subscribers end on the final value. Every case is non-trivial; distinct = distinct traces.")
+LOCKS = ("std::sync::RwLock = many-readers/one-writer mutual exclusion (new readers may wait behind a queued writer: such schedules are not generated), Arc counts exact and atomic, "
+         "Arc::into_inner returns Some for exactly one of the racing last owners; real hardware memory ordering below the lock API is outside the model (sequentially consistent at segment granularity)")
+
+PROPS.update({
+    "C02": dict(obs_prop(["EyeballVerif.Props.C02", "EyeballVerif.Props.C02Conc", "EyeballVerif.Lemmas.ConcInv", "EyeballVerif.Lemmas.ConcRun"],
+        "operation granularity: c02_parked_registered, c02_pending_nothing_missed, c02_next_write_wakes, c02_close_wakes over every reachable world (OInv); thread granularity: winv_adv — the lock-discipline / registration / "
+        "clone-accounting invariant WInv is preserved by every segment of every thread, for any number of threads — and c02_conc_no_lost_wakeup, c02_conc_notify_wakes, c02_conc_close_wakes",
+        [{"name": "obs"}, {"name": "conc"}], extra_tb=[LOCKS]),
+        claim=("Lean 4, two layers. (a) Operation granularity: in every world reachable by any call sequence, a subscriber whose poll answered Pending is registered, nothing it has not observed exists, and the next "
+               "notifying write through any owner and the drop of the last owner wake it — every parked subscriber, not one (c02_parked_registered, c02_next_write_wakes, c02_close_wakes). (b) Thread granularity: a lock-level "
+               "model with any number of threads advancing segment by segment (segments = code between the instrumented pause points; a step is enabled only if its lock is free); winv_adv proves the invariant for "
+               "every step, hence for every interleaving; c02_conc_no_lost_wakeup: a task told Pending and not woken is registered, the observable is open and it has observed the current version. "
+               "Tied to the code by the obs engine and by forced schedules of real threads replayed on the model (conc engine); that std's locks exclude and that the critical sections are where the model puts "
+               "them is validated by those schedules (sampling), not proved."),
+        technique="Lean 4 proof (inductive invariant over all interleavings of a lock-level model) + forced-schedule correspondence on real threads",
+        design_ref="DESIGN.md §6 C02"),
+    "C03": dict(obs_prop(["EyeballVerif.Props.C03", "EyeballVerif.Props.C03Conc"],
+        "c03_closed_iff_no_owner, c03_end_iff, c03_after_end, c03_upgrade_iff, c03_into_shared_keeps_open over every reachable world; c03_conc_closed_iff / c03_conc_open_while_owned for every schedule of the "
+        "lock-level model (repaired drop protocol); c03_conc_racy_counterexample: kernel-checked refutation for the original protocol (D7)",
+        [{"name": "obs"}, {"name": "conc"}], extra_tb=[LOCKS]),
+        claim=("Lean 4: closed iff no owner in every world reachable by clone / drop / downgrade / upgrade / into_shared / subscribe / set / poll (c03_closed_iff_no_owner), a poll answers End exactly then and keeps doing so "
+               "while get returns the last value (c03_end_iff, c03_after_end), upgrade succeeds exactly while an owner exists (c03_upgrade_iff); across threads: for every schedule of the lock-level model with the repaired "
+               "drop protocol, closed iff the clone counter is zero whenever nobody is mid-close (c03_conc_closed_iff), and the original protocol is refuted in the kernel by the two-clones schedule "
+               "(c03_conc_racy_counterexample = defect D7, found by this check on the real code and repaired). Tied to the code by the obs engine and by forced schedules at the pause points between the "
+               "'am I last?' decision and the release, and inside upgrade."),
+        technique="Lean 4 proof (invariants over call sequences and over all interleavings; kernel-checked counterexample for the pre-repair protocol) + forced-schedule correspondence",
+        design_ref="DESIGN.md §6 C03"),
+    "C04": dict(obs_prop(["EyeballVerif.Props.C04"],
+        "c04_mutual_exclusion (guards exclude, from WInv, every reachable state), c04_value_frame (only the store segment changes the value and it records what it replaced), c04_set_chain (along every run the "
+        "stores form a chain from the initial to the final value), c04_reads_current, c04_observed_monotone",
+        [{"name": "conc"}], extra_tb=[LOCKS]),
+        claim=("Lean 4 theorems about the lock-level model, for every number of threads and every schedule: while a writer is in its critical section nobody holds the read lock and nobody else writes, and vice versa "
+               "(c04_mutual_exclusion); only the segment in which a set takes the write lock changes the value, recording the value it replaced as the call's result (c04_value_frame); hence along every run the "
+               "stores are totally ordered and chained — returned previous values + final value = initial value + written values (c04_set_chain); get and the subscriber check read the current value "
+               "(c04_reads_current); observed versions never go backwards (c04_observed_monotone). Each call's effect is one segment between its invocation and response: that is the linearization point. "
+               "Tied to the code by forced schedules (a thread released into a held lock must block; results must equal the model's) and free-running rounds with the set-chain oracle; partial: the atomicity of "
+               "a segment on real hardware is the lock's guarantee, validated, not proved."),
+        technique="Lean 4 proof (mutual-exclusion invariant, frame and chain lemmas over all interleavings) + forced-schedule correspondence on real threads",
+        design_ref="DESIGN.md §6 C04"),
+})
+
 ENGINES = [
     {"name": "diff", "path": "harness/src/eng_diff.rs", "serves_properties": ["C18"],
      "kind_free_text": "differential correspondence (real VectorDiff vs Lean model) + implementation-side oracle"},
@@ -229,6 +276,8 @@ ENGINES = [
      "kind_free_text": "differential correspondence (real adapter pipelines vs Lean model Pipe) + implementation-side oracles on transparent taps between the stages"},
     {"name": "obs", "path": "harness/src/eng_obs.rs", "serves_properties": ["C01", "C02", "C03", "C19"],
      "kind_free_text": "differential correspondence (real Observable/SharedObservable/Subscriber, default lock flavour, vs Lean model OWorld) + specification-level oracle"},
+    {"name": "conc", "path": "harness/src/eng_conc.rs", "serves_properties": ["C02", "C03", "C04"],
+     "kind_free_text": "real threads driven through every pause-point interleaving by a director (forced schedules) + free-running rounds; traces replayed on the Lean lock-level model"},
     {"name": "obsasync", "path": "harness/src/eng_obs.rs", "serves_properties": ["C16", "C19"],
      "kind_free_text": "the same histories on the async-lock flavour, every future polled once by a hand-rolled executor, against the same Lean model"},
 ]
